@@ -21,7 +21,7 @@ import (
 func TestMain(m *testing.M) {
 	kit.Register("table-model", modelOracle)
 	kit.Register("table-soup", soupOracle)
-	kit.Describe("table-model: case = (safe configuration with the Table extension, a row model: optional paragraph lines, header row with h cells, delimiter row with d alignment cells, body rows with 1..2d cells, cells from inert words / emphasis / code spans / escaped pipes, leading and trailing pipes present or absent, optionally inside a block quote or list item) serialised to Markdown; oracle: a delimiter row with a cell that is not :?-+:? (empty between adjacent pipes, blank, inner space, stray character) => no table at all; h != d => no table at all; h == d => exactly one table, one thead with one tr of h th cells, every body row exactly h td cells, tbody iff there are body rows, every cell that was written in the source carries its column's alignment (per the pinned align method), and the AST has one TableHeader plus one TableRow per body row, each with len(Alignments) cells. table-soup: pipe/dash/colon soup; oracle: every table in the output is rectangular (one thead/tr, n >= 1 th, every body row n td, tbody iff rows) and every Table node has a header and rows of len(Alignments) cells. non-trivial = a table was produced and at least one body row had a cell count different from the header; distinct by hash of the case",
+	kit.Describe("table-model: case = (safe configuration with the Table extension, a row model: optional paragraph lines, header row with h cells, delimiter row with d alignment cells, body rows with 1..2d cells, cells from inert words / emphasis / code spans / escaped pipes, leading and trailing pipes present or absent, optionally inside a block quote or list item) serialised to Markdown; oracle: a delimiter row with a cell that is not :?-+:? (empty between adjacent pipes, blank, inner space, stray character) => no table at all; h != d => no table at all; h == d => exactly one table, one thead with one tr of h th cells, every body row exactly h td cells, tbody iff there are body rows, every cell that was written in the source carries its column's alignment (per the pinned align method), and the AST has one TableHeader plus one TableRow per body row, each with len(Alignments) cells. wide tables: a fixed list of large shapes (up to 1000 columns / 1200 rows, > 65536 padding cells in one table) through the same oracle. table-soup: pipe/dash/colon soup; oracle: every table in the output is rectangular (one thead/tr, n >= 1 th, every body row n td, tbody iff rows) and every Table node has a header and rows of len(Alignments) cells. non-trivial = a table was produced and at least one body row had a cell count different from the header; distinct by hash of the case",
 		"the expected shape comes from the generator's own row model and an independent reading of the GFM delimiter-row rule", "outputs are read with the strict HTML tokenizer; a case it rejects is left to C03")
 	kit.Main(m, "C17")
 }
@@ -440,6 +440,46 @@ func TestTableModel(t *testing.T) {
 			}
 		}
 	})
+}
+
+// TestWideTables: size thresholds. A handful of large tables (hundreds of columns x hundreds of short or
+// over-long rows, > 65536 padding cells in one table) through the same row-model oracle.
+func TestWideTables(t *testing.T) {
+	shapes := [][3]int{{300, 400, 1}, {64, 1200, 2}, {1000, 70, 1}, {130, 600, 1}, {40, 300, 90}, {257, 257, 1}}
+	if kit.Thorough() {
+		shapes = append(shapes, [3]int{2000, 40, 3}, [3]int{16, 5000, 1}, [3]int{512, 512, 1}, [3]int{100, 100, 250})
+	}
+	for i, sh := range shapes {
+		if !kit.Mine(i) {
+			continue
+		}
+		cols, rows, cells := sh[0], sh[1], sh[2]
+		var sb strings.Builder
+		sb.WriteString("|" + strings.Repeat("h|", cols) + "\n|" + strings.Repeat("-|", cols) + "\n")
+		var rc []string
+		aligns := make([]string, cols)
+		for j := range aligns {
+			aligns[j] = "n"
+		}
+		for r := 0; r < rows; r++ {
+			k := cells
+			if r%7 == 3 {
+				k = cols // a full row now and then
+			}
+			sb.WriteString("|" + strings.Repeat("c|", k) + "\n")
+			rc = append(rc, strconv.Itoa(k))
+		}
+		for _, cfg := range []gen.Config{{Table: true}, {GFM: true, XHTML: true}} {
+			c := kit.NewCase("table-model", cfg.String()).B("src", []byte(sb.String())).I("h", int64(cols)).S("aligns", strings.Join(aligns, ",")).S("rows", strings.Join(rc, ","))
+			last = shape{}
+			if kit.Check(t, c) {
+				kit.R.Class("wide-tables")
+				if last.tables > 0 && last.ragged {
+					kit.R.NonTrivial(c)
+				}
+			}
+		}
+	}
 }
 
 var tblSoup = &gen.Profile{Name: "tblsoup", NoHTML: true, Extra: []string{"a", "b", " ", "|", "|", "|", "|", "-", "--", ":", ":-", "-:", ":-:", "\n", "\n", "\n", "\\|", "`", "``", "\\", "> ", "- ", "  ", "    ", "*", "\n\n", "x|y", "| a | b |\n", "|-|-|\n", "|:-|-:|\n", "\\\\|", "||", "|a|\n|-|\n", "a|b\n-|-\n", "|\n", "| |\n"}}
